@@ -411,8 +411,8 @@ def run(ctx):
             ctx.missing('R08.4', 'anchor', e)
         return
     pv = Prover(ctx.lib)
-    r08_1(ctx)
-    mf = r08_2(ctx, A)
-    cf = r08_3(ctx)
-    r08_4(ctx, A, pv, mf, cf)
-    C07.r07_1(ctx, A, pv)
+    ctx.step(r08_1, ctx)
+    mf = ctx.step(r08_2, ctx, A)
+    cf = ctx.step(r08_3, ctx)
+    ctx.step(r08_4, ctx, A, pv, mf, cf)
+    ctx.step(C07.r07_1, ctx, A, pv)
